@@ -81,7 +81,7 @@ type member struct {
 func TestExactlyOncePipeline(t *testing.T) {
 	rapid.Check(t, func(rt *rapid.T) {
 		p := genPlan(rt)
-		var faultsBetween, restarts, rebalances, offsetChecks int
+		var faultsBetween, restarts, rebalances, offsetChecks, produceErrAborts int
 		drained := false
 		bubble.Run(t, rt, func(e *bubble.Env) {
 			e.StartCluster(bubble.ClusterOpts{Brokers: p.Brokers, Topics: map[string]int32{"in": p.InParts, "out": p.OutParts}})
@@ -236,6 +236,8 @@ func TestExactlyOncePipeline(t *testing.T) {
 										return
 									}
 								}
+								// the documented application policy (examples/transactions/eos): abort if any produce fails
+								firstErr := kgo.AbortingFirstErrPromise(sess.Client())
 								n := 0
 								polledTo := map[int32]int64{}
 								fs.EachRecord(func(r *kgo.Record) {
@@ -246,13 +248,19 @@ func TestExactlyOncePipeline(t *testing.T) {
 									if k := int64(binary.BigEndian.Uint64(r.Key)); p.DropMod != 0 && k%p.DropMod == 0 {
 										return // filtered out: consumed, nothing produced
 									}
-									sess.Produce(ctx, &kgo.Record{Topic: "out", Partition: int32(binary.BigEndian.Uint64(r.Key) % uint64(p.OutParts)), Value: append([]byte(nil), r.Key...)}, nil)
+									sess.Produce(ctx, &kgo.Record{Topic: "out", Partition: int32(binary.BigEndian.Uint64(r.Key) % uint64(p.OutParts)), Value: append([]byte(nil), r.Key...)}, firstErr.Promise())
 								})
 								if p.Work > 0 && n > 0 {
 									time.Sleep(p.Work)
 								}
 								ec, ecancel := context.WithTimeout(ctx, 5*time.Minute)
-								committed, err := sess.End(ec, kgo.TryCommit)
+								try := kgo.TransactionEndTry(firstErr.Err() == nil)
+								if !try {
+									mu.Lock()
+									produceErrAborts++
+									mu.Unlock()
+								}
+								committed, err := sess.End(ec, try)
 								ecancel()
 								if n > 0 || err != nil {
 									e.Log.Add("end", int64(n), fmt.Sprintf("%s committed=%v", m.name, committed), err, 0, 0)
@@ -453,6 +461,9 @@ func TestExactlyOncePipeline(t *testing.T) {
 		}
 		ev.Class("balancer:" + p.Balancer)
 		ev.Class(fmt.Sprintf("filter-dropmod:%d", p.DropMod))
+		if produceErrAborts > 0 {
+			ev.Class("transaction-aborted-by-application-after-produce-error")
+		}
 		ev.ClassN("committed-offsets-verified-after-End", int64(offsetChecks))
 		if p.PollFirst {
 			ev.Class("loop:poll-then-begin")
